@@ -433,6 +433,8 @@ func (p *IterProg) Render() string {
 				e = fmt.Sprintf("iter(range(%d, %d))", pr.Tag*100, pr.Tag*100+pr.N)
 			case "tuple":
 				e = fmt.Sprintf("iter(tuple([%d + _i for _i in range(%d)]))", pr.Tag*100, pr.N)
+			case "bytes":
+				e = fmt.Sprintf("iter(b\"%s\")", "abcdefghijklmnopqrstuvwxyzABCDEFGH"[:pr.N])
 			case "str":
 				e = fmt.Sprintf("iter(\"%s\")", "abcdef"[:pr.N])
 			}
